@@ -9,10 +9,13 @@ Trace == ndJsonDeserialize("trace.ndjson")
 Ev == Trace[l]
 
 UnRow(r) == [nf |-> r.nf, ts |-> [c |-> r.ts.c, slot |-> r.ts.slot],
-             rd |-> [c |-> r.rd.c, n |-> r.rd.n, k |-> r.rd.k]]
+             rd |-> [c |-> r.rd.c, n |-> r.rd.n, k |-> r.rd.k, s |-> r.rd.s]]
 UnRows(x) == [i \in DOMAIN x |-> UnRow(x[i])]
 
-ValMatches(exp, got) == exp.c = "any" \/ (got.c = "v" /\ exp.c = "v" /\ got.n = exp.n)
+ValMatches(exp, got) == \/ exp.c = "any"
+                        \/ (got.c = "v" /\ exp.c = "v" /\ got.n = exp.n)
+                        \* an integer of many digits under a calibration ratio of one: the full 64-bit value, as decimal strings
+                        \/ (exp.c = "bigs" /\ got.c = "big" /\ got.s = exp.s)
 
 TRead ==
   /\ Ev.a = "Read"
